@@ -1569,7 +1569,7 @@ def microservice_sidecar_gateway(seed, variant):
                               rate_limit_policy=[None, FixedWindowPolicy(requests_per_window=20, window_size=0.5), None][v]),
         "/orders": RouteConfig(name="orders", backends=[sidecars[2]], auth_required=(v == 1),
                                rate_limit_policy=TokenBucketPolicy(capacity=10, refill_rate=[30.0, 15.0, 60.0][v]),
-                               timeout=0.25),
+                               timeout=[0.25, 0.005, 0.25][v]),     # variant 1: the route timeout is shorter than the auth check
         "/empty": RouteConfig(name="empty", backends=[], auth_required=False),
     }, auth_latency=[0.001, 0.01, 0.0][v], auth_failure_rate=[0.05, 0.2, 0.0][v])
 
